@@ -4,7 +4,8 @@ Confirms a sub-agent's change in a scratch worktree (tools/verify_seeded.sh), ru
 checks against it (tools/mutcheck.sh) and files it under /verif/seeded/<id>/."""
 import json, os, shutil, subprocess, sys, re
 src, sid, checks = sys.argv[1], sys.argv[2], sys.argv[3:]
-ver = subprocess.run(['/verif/tools/verify_seeded.sh', src], capture_output=True, text=True, errors='replace').stdout.strip().split('\n')[-1]
+# KEEP_VERIFY_LINE: the RESULT line of a verification already done (tools/verify_seeded.sh with VERIFY_WT, in parallel)
+ver = os.environ.get('KEEP_VERIFY_LINE') or subprocess.run(['/verif/tools/verify_seeded.sh', src], capture_output=True, text=True, errors='replace').stdout.strip().split('\n')[-1]
 print(ver)
 ok = 'build=ok' in ver and 'other_failed=[]' in ver and 'demo_with_change=FAIL' in ver and 'demo_without_change=PASS' in ver
 det = subprocess.run(['/verif/tools/mutcheck.sh', os.path.join(src, 'patch.diff')] + checks, capture_output=True, text=True, errors='replace').stdout
